@@ -54,11 +54,11 @@ CB = CallbackController()
 # name: attribute name used for this kind (plural for collections so that the singular helper
 # names are natural); ann: annotation source; conf / bad: value specs; lit / mut: default sources
 KINDS = {
-    "int": dict(name="v", ann="int", conf=[0, 1, 7], bad=["s", None, 1.5], lit="1", lit_spec=1),
+    "int": dict(name="v", ann="int", conf=[0, 1, 7], bad=["s", None, 1.5, 1.0], lit="1", lit_spec=1),
     "str": dict(name="s", ann="str", conf=["", "a"], bad=[1, None], lit="'d'", lit_spec="d"),
     "float": dict(name="f", ann="float", conf=[0.5, 2], bad=["x"], lit="1.5", lit_spec=1.5),
-    "optint": dict(name="o", ann="Optional[int]", conf=[None, 3], bad=["", "x", 0.0], lit="None", lit_spec=None),
-    "union": dict(name="u", ann="Union[int, str]", conf=[1, "u"], bad=[1.5, None], lit="'w'", lit_spec="w"),
+    "optint": dict(name="o", ann="Optional[int]", conf=[None, 3], bad=["", "x", 0.0, 3.0], lit="None", lit_spec=None),
+    "union": dict(name="u", ann="Union[int, str]", conf=[1, "u"], bad=[1.5, None, 1.0], lit="'w'", lit_spec="w"),
     "literal": dict(name="lit", ann="Literal['a', 'b']", conf=["a", "b"], bad=["c", 1], lit="'a'", lit_spec="a"),
     "bounded": dict(name="b", ann="bounded(int, ge=0)", conf=[0, 3], bad=[-1, "x"], lit="2", lit_spec=2),
     "even": dict(name="e", ann="EVEN", conf=[0, 4], bad=[3, "x"], lit="2", lit_spec=2),
